@@ -34,7 +34,7 @@ CHECKS = {
     "C09": dict(
         technique="exhaustive enumeration of all field layouts (struct/variant x named/tuple x 0..3 fields x 7 attribute choices x names x types: 81,760 layouts) through the real expander in-process, compared with a model of the documented selection rules; plus run-time address identity of source() on compiled layouts (plain, Box<dyn Error>, generic)",
         text="Every layout in the bounded space is expanded by the real code and the selected member read off the expansion is compared with the documented-rule model (ambiguous layouts must be rejected, never a panic); the backtrace-free layouts are additionally compiled and source() compared by address with the field.",
-        note="Trusted: the 40-line rule model (every prediction executed); the regex that reads the selected member off the expansion (fails loudly when it cannot). Layouts with a detected backtrace are decided in-process only (their provide() needs nightly).",
+        note="Trusted: the 40-line rule model (every prediction executed); the regex that reads the selected member off the expansion (fails loudly when it cannot). Layouts with a detected backtrace are decided in-process in the quick tier; the thorough tier also compiles and runs 1.4k of them with cargo +nightly (#![feature(error_generic_member_access)]).",
         design_ref="DESIGN.md §3 C09", engine="inproc+compile"),
     "C14": dict(
         technique="bounded exhaustive enumeration of structs (1..3 fields x selected position x selection mode x named/tuple x equal/different field types) x {Deref, DerefMut, AsRef, AsMut, Index, IndexMut, IntoIterator} x {direct, forward, listed types, generic, owned/ref/ref_mut}; address identity and write-through observed at run time",
@@ -102,7 +102,7 @@ CHECKS = {
         note="Trusted: cargo/rustc; the helper-type -> feature table transcribed from the docs. Triples and larger proper subsets are not explored (pairs exercise every pairwise combination of the cfg(any(feature..)) guards).",
         design_ref="DESIGN.md §3 C20", engine="cargo"),
     "C17": dict(
-        technique="enumeration of the documented attribute grammar per derive (tables transcribed from impl/doc and the CHANGELOG): 50 groups of synonymous spellings (skip/ignore, bound/bounds, one list vs several attributes, trailing commas, argument/attribute order, mark-one vs ignore-others; 170 spellings) expanded by the real code in-process and compared as canonical multisets of items; 337 single-step corruptions (unknown argument in each slot, duplicates, conflicting pairs, wrong item kind, legacy forms) each of which must be rejected by the derive (or, for arguments that are syntactically types, by rustc on the real proc-macro)",
+        technique="enumeration of the documented attribute grammar per derive (tables transcribed from impl/doc and the CHANGELOG): 70 groups of synonymous spellings (skip/ignore, bound/bounds, one list vs several attributes incl. every ordered split of 3-type lists and every spreading of owned/ref/ref_mut over up to three attributes, trailing commas, argument/attribute order, mark-one vs ignore-others; ~1.1k spellings) expanded by the real code in-process and compared as canonical multisets of items; 337 single-step corruptions (unknown argument in each slot, duplicates, conflicting pairs, wrong item kind, legacy forms) each of which must be rejected by the derive (or, for arguments that are syntactically types, by rustc on the real proc-macro); and, for the 22 positions of the derives sharing the flag-style parser, ALL parameter sequences up to length 3 (4 thorough) over a 12-token alphabet: whatever is accepted must use only documented parameters, none twice or contradictorily, `ignore` alone",
         text="Exhaustive over the hand-transcribed grammar tables (not over all token sequences - those are C18's space): each rewrite pair must expand identically, each corruption must fail.",
         note="Trusted: the grammar tables in props/c17.py and the canonicalisation (impl order, where-predicate order). Positions the docs do not name (e.g. #[display] on a field, #[index] on the struct) are out of scope.",
         design_ref="DESIGN.md §3 C17", engine="inproc+compile"),
